@@ -61,8 +61,13 @@ def build(ctx):
     def bm_shape():
         o = bm_real()
         A = o.value
-        if sorted(A.bands) != [-1, 0, 1] or A.n is not n:
+        if sorted(A.bands) != [-1, 0, 1]:
             return be.Verdict(be.REFUTED, "SMT", witness={}, detail=f"bands {sorted(A.bands)}, dimension {A.n}")
+        if A.n is not n:
+            vdim = be.prove_smt(tm.eq(A.n, n), [tm.ge(n, tm.const(2))] + list(o.pc), want={"n": n, "dimension": A.n})
+            if vdim.status != be.PROVED:
+                vdim.detail = f"the matrix dimension {A.n} is not len(kt_h2): " + vdim.detail
+                return with_models(vdim, o)
         goals = [tm.implies(tm.land(*pc), cond) for cond, what, pc in o.wd if what.startswith("sparse.diags")]
         if not goals:
             return with_models(be.Verdict(be.PROVED, "SMT", detail="diagonal lengths n-1, n, n-1 by construction (slices of the argument)"), o)
